@@ -130,6 +130,11 @@ pub fn connections() -> Vec<Conn> {
     v.push(http_conn("h2-references-foreign-dynamic-entries", &Ends { cip: 11, cport: 43002, sip: 9, sport: 443, v6: false }, &h2_request(&[("accept", "text/html", Rep::LitNoIdx)], &[], &[0xbe, 0xbf]), &[], &h2_response(&[], &[0xbe]), &[], T0 + 15));
     // 10: HTTP/2 starting with a dynamic table size update to 0, then literals with indexing and a self reference
     v.push(http_conn("h2-size-update-0", &Ends { cip: 12, cport: 43003, sip: 9, sport: 443, v6: true }, &h2_request(&[("x-a", "1", Rep::LitIdxNewName), ("x-a", "1", Rep::Indexed)], &[0x20], &[]), &[], &h2_response(&[("x-b", "2", Rep::LitIdxNewName)], &[]), &[], T0 + 17));
+    // HTTP/2 blocks that change the decoder state and THEN fail (size update to 0, or an insertion, followed by the
+    // invalid index 0), and a well-formed block that depends on its own insertion
+    v.push(http_conn("h2-size-update-0-then-invalid-index", &Ends { cip: 16, cport: 43004, sip: 9, sport: 443, v6: false }, &h2_request(&[], &[0x20], &[0x80]), &[], &h2_response(&[], &[0x20, 0x80]), &[], T0 + 25));
+    v.push(http_conn("h2-insert-then-invalid-index", &Ends { cip: 17, cport: 43005, sip: 9, sport: 443, v6: false }, &h2_request(&[("x-evil", "leak-me", Rep::LitIdxNewName)], &[], &[0x80]), &[], &h2_response(&[("x-evil-resp", "leak-me-too", Rep::LitIdxNewName)], &[0x80]), &[], T0 + 27));
+    v.push(http_conn("h2-self-reference", &Ends { cip: 18, cport: 43006, sip: 9, sport: 443, v6: false }, &h2_request(&[("x-b", "1", Rep::LitIdxNewName)], &[], &[0xbe]), &[], &h2_response(&[("x-c", "2", Rep::LitIdxNewName)], &[0xbe]), &[], T0 + 29));
     // 11: garbage after a SYN (both directions)
     let e = Ends { cip: 13, cport: 44000, sip: 14, sport: 8080, v6: false };
     v.push(Conn { name: s("garbage-after-syn"), pkts: vec![(seg(&e, true, SYN, 1000, &[], None), T0 + 19), (seg(&e, true, ACK | PSH, 1001, &[0xff; 50], None), T0 + 20), (seg(&e, false, ACK | PSH, 5001, b"\x16\x03\x01\x00\x02\x01\x00", None), T0 + 21), (seg(&e, true, ACK | PSH, 1051, b"GET / HTTP/9.9\r\n\r\n", None), T0 + 22)] });
@@ -292,7 +297,7 @@ pub fn run(thorough: bool) -> Outcome {
     });
     Outcome {
         report: pre.merge(rep),
-        rule: "13 connections (TCP handshakes with timestamps, ClientHello in 1/2/3 segments incl. IPv6, two HTTP/1 exchanges sharing a server, HTTP/2 exchanges: static only / literal with indexing / referencing foreign dynamic entries / size update 0, garbage after SYN, a TLS flow sharing the HTTP client's endpoint): every unordered pair (thorough: every triple of the 8 shortest) in every order-preserving interleaving on fresh TCP, HTTP, TLS and unified analyzers (capacity 8), each packet's result compared with the isolated run; distinct = distinct per-trace result vectors".into(),
+        rule: "16 connections (TCP handshakes with timestamps, ClientHello in 1/2/3 segments incl. IPv6, two HTTP/1 exchanges sharing a server, HTTP/2 exchanges: static only / literal with indexing / referencing foreign dynamic entries / size update 0 / state change followed by a decoding error / self reference, garbage after SYN, a TLS flow sharing the HTTP client's endpoint): every unordered pair (thorough: every triple of the 8 shortest) in every order-preserving interleaving on fresh TCP, HTTP, TLS and unified analyzers (capacity 8), each packet's result compared with the isolated run; distinct = distinct per-trace result vectors".into(),
         exhaustive: true,
         bounds: json!({"connections": conns.len(), "groups": groups.len(), "max_group": if thorough {3} else {2}}),
     }
